@@ -379,14 +379,21 @@ class C19c(Obligation):
                 if kinds[self.i] == 0:
                     raise FileNotFoundError(self.path)
                 return b'x'
-        ctx.patch(jrefs, 'python_bytes_to_unicode', lambda code, errors='strict': 'x')
-        cur = []
+        decoded = []
+
+        def decode(code, errors='strict'):
+            decoded.append('decoded-text-of-file%d' % opened[-1])
+            return decoded[-1]
+        ctx.patch(jrefs, 'python_bytes_to_unicode', decode)
+        searched = []
+        patterns = []
 
         class Regex:
             def search(self, code):
+                searched.append(code)
                 return kinds[opened[-1]] >= 2
         import re as _re
-        ctx.patch(jrefs, 're', Obj(compile=lambda pat: Regex(), escape=_re.escape))
+        ctx.patch(jrefs, 're', Obj(compile=lambda pat, *flags: patterns.append(pat) or Regex(), escape=_re.escape))
         ctx.patch(jrefs, 'KnownContentFileIO', lambda path, code: Obj(path=path))
         ctx.patch(jrefs, 'load_module_from_path',
                   lambda state, fio: Obj(is_compiled=lambda: kinds[opened[-1]] == 3,
@@ -409,6 +416,9 @@ class C19c(Obligation):
                 break
         ctx.check(out.value == expected, 'exactly the python files mentioning the name, in walk order, up to the parse limit')
         ctx.check(opened == expected_opened, 'files are opened once each, in order, and none beyond the limits')
+        ctx.check(patterns == [r'\bname\b'], 'the pre-filter is the word-bounded identifier as a TEXT pattern (unicode word boundaries)')
+        ctx.check(searched == decoded and all(isinstance(t, str) for t in searched),
+                  'the pre-filter looks at the DECODED text of each file (source encoding honoured), never at raw bytes')
 
 
 OBLIGATIONS = [C19a, C19b, C19c, C19d, C19e, C19f]
